@@ -78,6 +78,8 @@ pub struct Profile {
     /// exits take the whole balance most of the time (pools and supplies run to exactly zero
     /// while requests are still pending)
     pub full_exits: bool,
+    /// many more holders than the fixed cast (addresses 301…345) and contract upgrades in between
+    pub crowd: bool,
 }
 
 pub fn profile(name: &str) -> Profile {
@@ -96,6 +98,7 @@ pub fn profile(name: &str) -> Profile {
         big_rewards: false,
         stub_faults: false,
         full_exits: false,
+        crowd: false,
     };
     match name {
         "mixed" => base,
@@ -174,6 +177,13 @@ pub fn profile(name: &str) -> Profile {
         "registry" => Profile {
             name: "registry",
             w: [10, 8, 6, 2, 3, 1, 0, 6, 3, 1, 4, 4, 0, 2, 0, 14, 0, 1],
+            ..base
+        },
+        // a crowd of holders (more than any page of a paged query) and contract upgrades
+        "crowd" => Profile {
+            name: "crowd",
+            crowd: true,
+            w: [10, 3, 3, 2, 1, 40, 2, 2, 1, 0, 4, 5, 4, 1, 0, 0, 2, 0],
             ..base
         },
         // admin: config / params / ownership / pause
@@ -379,7 +389,16 @@ impl Gen {
                 let holder = self.holder_of(tok, c).unwrap_or(u);
                 // now and then the recipient is one of the system's own contracts (the reward
                 // contract's own address included): the mirror must hold for every recipient
-                let to = if self.rng.chance(1, 7) { self.rng.pick(&[REWARD, HUB, BSEI, STSEI, DISP, REG, KEEPER]) } else { self.rng.pick(&USERS) };
+                if self.p.crowd && self.rng.chance(1, 12) {
+                    return Op::Env(EnvOp::Migrate(self.rng.pick(&[REWARD, BSEI, HUB, DISP, REG, STSEI])));
+                }
+                let to = if self.p.crowd && self.rng.chance(2, 3) {
+                    301 + self.rng.below(45) as Id
+                } else if self.rng.chance(1, 7) {
+                    self.rng.pick(&[REWARD, HUB, BSEI, STSEI, DISP, REG, KEEPER])
+                } else {
+                    self.rng.pick(&USERS)
+                };
                 let a = self.amount(c.token_balance(tok, holder), c);
                 match self.rng.below(6) {
                     0 | 1 | 2 => tx(holder, tok, Call::Tok(TokMsg::Transfer(to, a))),
@@ -544,6 +563,10 @@ impl Gen {
     pub fn admin_op(&mut self, _c: &Chain) -> Op {
         let sender = if self.rng.chance(4, 5) { OWNER } else { self.rng.pick(&[NOMINEE, 5, UPDATER]) };
         let decs = [0u128, 1, 50_000_000_000_000_000, D - 1, D, D + 1, 2 * D];
+        if self.rng.chance(1, 15) {
+            // a contract upgrade to the same code
+            return Op::Env(EnvOp::Migrate(self.rng.pick(&[HUB, BSEI, STSEI, REWARD, DISP, REG])));
+        }
         match self.rng.below(12) {
             0 | 1 | 2 => {
                 let e = self.opt(&[0u64, 10, 30]);
